@@ -258,6 +258,8 @@ def check_model(sc):
     finally:
         sys.stdout = so
     out.label(sc["system"], sc["iterator"])
+    if sc.get("T_calls"):
+        out.label("temperature_set_between_solve_calls")
     if any(p.get("strain") for p in sc["phases"]):
         out.label("strain_energy")
     if any(p.get("shape", "sphere") != "sphere" for p in sc["phases"]):
@@ -292,6 +294,14 @@ def _model_case(draw):
         sc = draw(scen.toy_multi_scenario(cap=200, allow_profile=False, allow_shapes=True, strain_odds=1))
     else:
         sc = draw(scen.toy_binary_scenario(cap=250, max_phases=2, undersat=False, allow_profile=False, strain_odds=1))
+    if len(sc["durations"]) > 1 and draw(st.integers(0, 2)) == 0:
+        # ageing steps done by hand: a new constant temperature handed to the setter between two solve calls
+        T = sc["T"][1]
+        calls = []
+        for _ in sc["durations"][1:]:
+            T = float(np.clip(T + draw(st.floats(3.0, 60.0)) * draw(st.sampled_from([1.0, -1.0, -1.0])), 350.0, 1300.0))
+            calls.append(["const", T])
+        sc["T_calls"] = calls
     if draw(st.integers(0, 2)) == 2:
         # second run on the same model after changing an energy (kept admissible for boundary-type sites: k = gbe/(2 gamma) below its limit)
         rc = {}
@@ -345,7 +355,7 @@ def clauses():
                rule="generator: Al-Zr, T in [500,900] K, 2-7 Gibbs-Thomson energies in {0, 1..1e5} J/mol, 3-6 relative supersaturations in [-0.5, 30], optionally 2-5 (T, g) pairs over 1-3 temperatures in any order for the pairwise array form; "
                     "oracle: dG(x_alpha(T,g),T) = g, x_alpha monotone in g, sentinel monotone, sign change at the planar solvus, dG increasing in x, four methods agree in sign, three in value (offset), curvature limit; non-trivial: >= 2 stable Gibbs-Thomson points"),
         Clause("model_rcrit", _model_case, check_model, quick=160, thorough=3000, shrink=False,
-               rule="generator: (1 in 12: Al-Zr / Ni-Al-Cr on the shipped databases) toy binary (1-2 phases, all site types and shapes, constant strain energy in every second phase) and toy ternary scenarios (all four shapes, strain energy likewise) at constant temperature, 1 in 3 followed by a change of an interfacial or grain-boundary energy, reset() and a second run on the same model; observer after every step: boundaries beyond one class width above (below) the reported critical radius grow (shrink); non-trivial: >= 5 steps with judged boundaries on both sides"),
+               rule="generator: (1 in 12: Al-Zr / Ni-Al-Cr on the shipped databases) toy binary (1-2 phases, all site types and shapes, constant strain energy in every second phase) and toy ternary scenarios (all four shapes, strain energy likewise) at constant temperature, 1 in 3 followed by a change of an interfacial or grain-boundary energy, reset() and a second run on the same model, 1 multi-call case in 3 with a new constant temperature handed to the setter between solve calls; observer after every step: boundaries beyond one class width above (below) the reported critical radius grow (shrink); non-trivial: >= 5 steps with judged boundaries on both sides"),
         Clause("model_rcrit_ramp", _ramp_case, check_model_ramp, quick=96, thorough=2000, shrink=False,
                rule="generator: toy binary (3 in 4) and toy ternary scenarios, spherical precipitates without strain energy, temperature ramps of 1-3 segments of 2-40 K each (2 in 3 start by cooling; direction may reverse); "
                     "observer after every step: boundaries beyond one class width above (below) the largest (smallest) critical radius over temperatures within constraints.maxTempChange of the current one grow (shrink); non-trivial: >= 5 judged steps with boundaries on both sides"),
